@@ -322,6 +322,39 @@ def native_grid(run):
     return problems
 
 
+def native_grid_points(run):
+    """D-skl boundary, without running the search: scikit-learn's contract says best_estimator_ = clone(estimator).set_params(**p)
+    for a grid point p.  For EVERY point of a grid that tunes two Config fields at once, that estimator's exported filter must carry
+    exactly the point's values (C17 carries them; checked here on the adapter the workflow builds)."""
+    import itertools
+
+    from sklearn.base import clone
+
+    from replay import shim
+    from replay.native import repo_import
+
+    py = shim.install()
+    ui = repo_import("formak.ui")
+    dt, x, v, a = ui.Symbol("dt"), ui.Symbol("x"), ui.Symbol("v"), ui.Symbol("a")
+    model = ui.Model(dt=dt, state={x, v}, control={a}, state_model={x: x + dt * v, v: v + dt * a})
+    grid = {"innovation_filtering": [2.0, 3.0], "max_dt_sec": [0.25, 0.5]}
+    base = py.SklearnEKFAdapter(symbolic_model=model, process_noise={a: 1.0}, sensor_models={"pos": {"x": x}}, sensor_noises={"pos": {"x": 1.0}}, config=py.Config())  # the workflow always passes a configuration
+    problems = []
+    try:
+        for order in (("innovation_filtering", "max_dt_sec"), ("max_dt_sec", "innovation_filtering")):
+            for vals in itertools.product(*[grid[k] for k in order]):
+                p = dict(zip(order, vals))
+                est = clone(base).set_params(**p)
+                cfg = est.export_python().config
+                got = {k: getattr(cfg, k) for k in p}
+                if got != p:
+                    problems.append(f"grid point {p}: the selected estimator's exported filter carries {got}")
+                    return problems
+    except Exception as e:
+        problems.append(f"{type(e).__name__}: {(str(e).splitlines() or [''])[0][:200]}")
+    return problems
+
+
 def check(run):
     fn = "formak.ui_state_machine (executed by exact unrolling)"
     run.exhaustive = True
@@ -330,6 +363,11 @@ def check(run):
     rep = run.verify(FitModelImpl(), {})
     for ob, model, definitive in driver.refuted(run, rep):
         run.findings.append(Finding(ob.name, "fit", f"{ob.name} refuted ({ob.note or ''})", {"language": "python", "counter_model": str(model)[:400]}, False))
+    run.native_runs += 1
+    gp = native_grid_points(run)
+    for p in gp[:1]:
+        run.findings.append(Finding("C18.py.native_grid_points", "grid", p, {"language": "python", "inputs": {"seed": run.seed, "grid_points": True}, "oracle_verdict": p}, True))
+    run.bounded.append({"what": "D-skl boundary: clone(adapter).set_params(**p) for every point p (both key orders) of a 2x2 grid over two Config fields; the exported filter must carry p", "bound": "8 estimators", "failures": len(gp), "counted_as_proved": False})
     if run.tier == "thorough":
         run.native_runs += 1
         problems = native_grid(run)
@@ -339,6 +377,11 @@ def check(run):
 
 
 def replay_file(payload):
+    if (payload.get("inputs") or {}).get("grid_points"):
+        run0 = driver.PropertyRun("C18", "quick", 0)
+        p = native_grid_points(run0)
+        print("replay C18 (grid points):", p[:1] or "every grid point is carried into the exported filter")
+        return not p
     run = driver.PropertyRun("C18", "quick", 0)
     fn = "replay"
     check_search(run, fn)
